@@ -140,12 +140,19 @@ Proof.
   - destruct ((c_mt e <? mtsec f)%Z || negb (c_size e =? fsize f)%Z)%bool; simpl; auto. destruct (parse f) eqn:Pf; simpl; auto.
   - destruct (parse f) eqn:Pf; simpl; auto.
 Qed.
-Lemma cache_ok_load_all s seen l : incl (keys s) seen -> forall c, cache_ok c s seen -> cache_ok (fst (sload_all c s l)) s seen.
+Lemma cache_ok_load_first s seen l : incl (keys s) seen -> forall c, cache_ok c s seen -> cache_ok (fst (sload_first c s l)) s seen.
 Proof.
   intros IS. induction l as [|e l IH]; intros c C; simpl; auto.
   pose proof (cache_ok_load c s seen (fst e) C IS) as C'.
+  destruct (sload_latest c s (fst e)) as [c' [p|]]; simpl in *; auto.
+Qed.
+Lemma cache_ok_load_upto s seen l : incl (keys s) seen -> forall n c, cache_ok c s seen -> cache_ok (fst (sload_upto c s l n)) s seen.
+Proof.
+  intros IS. induction l as [|e l IH]; intros n c C; simpl; auto.
+  destruct n as [|n']; simpl; auto.
+  pose proof (cache_ok_load c s seen (fst e) C IS) as C'.
   destruct (sload_latest c s (fst e)) as [c' [p|]]; simpl in *.
-  - specialize (IH c' C'). destruct (sload_all c' s l) as [c'' ps]; simpl in *. auto.
+  - specialize (IH n' c' C'). destruct (sload_upto c' s l n') as [c'' ps]; simpl in *. auto.
   - apply IH; auto.
 Qed.
 Lemma cache_ok_del c s seen k : cache_ok c s seen -> cache_ok (scache_del c k) s seen.
@@ -159,13 +166,11 @@ Section Q.
 Variables kname kpath : skey -> string.
 Lemma cache_ok_latest c s seen d day : cache_ok c s seen -> incl (keys s) seen -> cache_ok (fst (sq_latest kname c s d day)) s seen.
 Proof.
-  intros C IS. unfold sq_latest, slatest_of. destruct (sglob kname s d (PLatest day)); simpl; auto.
-  destruct (sfilter_latest (s0 :: l) 1) as [|e r]; simpl; auto.
-  pose proof (cache_ok_load c s seen (fst e) C IS) as C'. destruct (sload_latest c s (fst e)) as [c' [p|]]; simpl in *; auto.
+  intros C IS. unfold sq_latest, slatest_of. destruct (sglob kname s d (PLatest day)); simpl; auto. apply cache_ok_load_first; auto.
 Qed.
 Lemma cache_ok_recent c s seen d n : cache_ok c s seen -> incl (keys s) seen -> cache_ok (fst (sq_recent kname c s d n)) s seen.
 Proof.
-  intros C IS. unfold sq_recent, srecent_of. destruct (sglob kname s d PAll); simpl; auto. apply cache_ok_load_all; auto.
+  intros C IS. unfold sq_recent, srecent_of. destruct (sglob kname s d PAll); simpl; auto. apply cache_ok_load_upto; auto.
 Qed.
 
 (* ---- every operation keeps the invariant of every cache (its own and those of other processes) ---------------------- *)
